@@ -141,7 +141,9 @@ class EngineSource:
         codes = [ord(c) for c in alphabet]
         self.e.assume(z3.ForAll([j], z3.Or(*[z3.Select(arr, j) == c for c in codes])))
         self.decl[name] = ("symstr", (arr, ln, alphabet))
-        return SymStr(arr, ln)
+        st = SymStr(arr, ln)
+        st.alphabet = alphabet
+        return st
 
     def enum_const(self, clsqual, member):
         return self.e.enum_member(self.e.repo.find(clsqual), member)
